@@ -339,12 +339,17 @@ def run(ctx):
     ctx.assumptions += ['data over atoms a, b and keys k, m; a list whose last item is empty is not generated (with a nullable '
                         'item symbol "[a,]" is inherently ambiguous; the documented reading "final delimiter" is adopted)',
                         'sequences are exercised with terminal elements only']
-    r = ctx.tlc('llparser/LLTemplates.tla', 'SPECIFICATION Spec\nCHECK_DEADLOCK FALSE\nCONSTANTS\n  Depth = 1\n  Width = %d\n  Emit = TRUE\n'
+    r = ctx.tlc('llparser/LLTemplates.tla', 'SPECIFICATION Spec\nCHECK_DEADLOCK FALSE\nCONSTANTS\n  Depth = 1\n  Width = %d\n  Emit = TRUE\n  Tops = {}\n'
                 'INVARIANT FinalDelimiterAddsNothing\n' % (2 if ctx.quick else 3), workers=16, timeout=3000, heap='12g')
     cases = [c for c in r.printed if isinstance(c, dict)]
     if not ctx.quick:
-        r = ctx.tlc('llparser/LLTemplates.tla', 'SPECIFICATION Spec\nCHECK_DEADLOCK FALSE\nCONSTANTS\n  Depth = 2\n  Width = 2\n  Emit = TRUE\n',
+        r = ctx.tlc('llparser/LLTemplates.tla', 'SPECIFICATION Spec\nCHECK_DEADLOCK FALSE\nCONSTANTS\n  Depth = 2\n  Width = 2\n  Emit = TRUE\n  Tops = {}\n',
                     workers=16, timeout=7200, heap='16g')
+        cases += [c for c in r.printed if isinstance(c, dict)]
+    if ctx.quick:
+        # containers of three entries (order of the later entries, repeated keys) for the plain top form
+        r = ctx.tlc('llparser/LLTemplates.tla', 'SPECIFICATION Spec\nCHECK_DEADLOCK FALSE\nCONSTANTS\n  Depth = 1\n  Width = 3\n  Emit = TRUE\n'
+                    '  Tops = {"value"}\n', workers=16, timeout=3000, heap='12g')
         cases += [c for c in r.printed if isinstance(c, dict)]
     if len(cases) < 3000:
         raise Machinery('LLTemplates emitted %d cases' % len(cases))
